@@ -76,6 +76,17 @@ func CoreCorpus(g *gen.Gen, n int) []Item {
 			items = append(items, mkItem(cs, ci))
 		}
 	}
+	// getMore lines that share namespace AND cursor id but carry different originating commands
+	// (logs of several nodes merged into one file; a restarted server re-issuing cursor ids):
+	// nothing keyed on (ns, cursor) may be carried from one line to the next
+	for fam := 0; fam < 3; fam++ {
+		db, coll := "dbgm"+fmt.Sprint(fam), "collgm"+fmt.Sprint(fam)
+		for k := 0; k < 6; k++ {
+			v := []string{"find", "aggregate", "find", "aggregate", "find", "aggregate"}[k]
+			cs := g.Case(gen.CaseOpts{Verb: v, Carrier: "originatingCommand", Comp: gen.Comps[k%3], DB: db, Coll: coll})
+			items = append(items, mkItem(cs, k))
+		}
+	}
 	i := 0
 	for len(items) < n || i < n/2 {
 		v := gen.Verbs[i%len(gen.Verbs)]
